@@ -17,6 +17,8 @@ pub enum ArenaOp {
     RemoveAllDescendants { node: usize },
     Merge { parent: usize, label: usize },
     UpdateNode { idx: usize, value: u32 },
+    /// replace the tree by its clone: every index, value, link and flag must survive
+    CloneSelf,
 }
 
 impl ArenaOp {
@@ -28,6 +30,7 @@ impl ArenaOp {
             ArenaOp::RemoveAllDescendants { .. } => "remove_all_descendants",
             ArenaOp::Merge { .. } => "merge_child_with_parent",
             ArenaOp::UpdateNode { .. } => "update_node",
+            ArenaOp::CloneSelf => "clone",
         }
     }
 }
@@ -210,6 +213,7 @@ impl Model {
                     isleaf: false,
                 }
             }
+            ArenaOp::CloneSelf => Outcome::OkCount(self.nodes.len() as i64),
             ArenaOp::UpdateNode { idx, value } => {
                 let Some(n) = self.nodes.get_mut(&idx) else {
                     return Outcome::Err("InvalidIndex");
@@ -246,6 +250,11 @@ fn apply_real<const K: usize>(tree: &mut Tree<u32, K>, op: &ArenaOp) -> Outcome 
             },
             Err(e) => Outcome::Err(err_name(&e)),
         },
+        ArenaOp::CloneSelf => {
+            let c = tree.clone();
+            *tree = c;
+            Outcome::OkCount(tree.len() as i64)
+        }
         ArenaOp::UpdateNode { idx, value } => match tree.update_node(idx, value) {
             Ok(v) => Outcome::OkValue(v),
             Err(e) => Outcome::Err(err_name(&e)),
@@ -502,6 +511,9 @@ fn gen_op(rng: &mut Prng, model: &Model, freed: &[usize], next_value: &mut u32, 
     }
     if weights.iter().all(|w| *w == 0) {
         weights[0] = 1;
+    }
+    if rng.chance(15, 1000) {
+        return ArenaOp::CloneSelf;
     }
     match rng.weighted(&weights) {
         0 => {
